@@ -71,8 +71,10 @@ def select(name):
 
 
 def tasks():
+    import os
+    nocl = bool(os.environ.get('VERIF_NO_CLUSTER'))
     return [ContractTask(c, regf) for c in CONTRACTS] + \
-        [ClusterTask("mailbox-cluster", "props.mailbox", "engine", select, "mailbox_history:search")]
+        ([] if nocl else [ClusterTask("mailbox-cluster", "props.mailbox", "engine", select, "mailbox_history:search")])
 
 
 TRUSTED = ["z3", "pyvc semantics", "Automat dispatch semantics (pyvc/automat.py)",
